@@ -186,7 +186,7 @@ class Parser(Node):
         if self.keyword is None:
             raise Exception(f"Type not recognized: {self.code}")
 
-    def _part_dimension(self):
+    def _part_dimension(self, ranges=False):
         pattern = r'^(\[([0-9:,]+)\])'
         m=re.match(pattern, self.ccode)
         if m:
@@ -195,10 +195,11 @@ class Parser(Node):
             for dim in dims:
                 if ":" in dim:
                     dmin,dmax = dim.split(':')
+                    # (a slice keeps apart the range n:n, which is empty, and the index n)
                     var.append((
                         int(dmin) if dmin else None,
                         int(dmax) if dmax else None
-                    ))
+                    ) + ((True,) if ranges else ()))
                 else:
                     var.append((int(dim), int(dim)))
             self._strip(m.group(1))
@@ -259,7 +260,7 @@ class Parser(Node):
             self.part_slice()
 
     def part_slice(self):
-        if dim := self._part_dimension():
+        if dim := self._part_dimension(ranges=True):
             self.parsed.append('part_slice')
             self.value_slice = dim
 
